@@ -227,10 +227,11 @@ theorem c17_past_end_gives_feedback (t : Text) (secs : List Text) (indep : Bool)
   refine ⟨s', hstep, ?_, hne (by omega)⟩
   rw [hmain]; simp [presented]; omega
 
-/-- After sections are stopped (explicitly, or by the resolver's hook) the main code is the original text. -/
+/-- After sections are stopped (explicitly, or by the resolver's hook) the main code is the original text
+    (and no line offset of a section stays behind on the submission). -/
 theorem c17_main_code_restored (t : Text) (marks : List Bool) (indep takesNL : Bool) (k : Nat) (viaHook : Bool) :
     ∃ s, run { main := t } (.separate marks indep takesNL :: List.replicate k .next ++ [if viaHook then .resolveHook else .stop])
-          = some s ∧ s.main = t ∧ s.subs = [] := by
+          = some s ∧ s.main = t ∧ s.subs = [] ∧ s.offset = 0 := by
   obtain ⟨s, hrun, hact, -⟩ := nexts_ok t _ indep k _ (separated_active t marks indep takesNL)
   have hrun' : ∀ op, run { main := t } (.separate marks indep takesNL :: List.replicate k .next ++ [op]) =
       (step s op) := by
@@ -248,10 +249,10 @@ theorem c17_main_code_restored (t : Text) (marks : List Bool) (indep takesNL : B
     simp only [List.cons_append, run, step_separate, Option.bind_some]
     exact this _ _ _ hrun
   cases viaHook
-  · refine ⟨{ s with subs := s.subs.dropLast, main := t }, ?_, rfl, by simp [hact.subs]⟩
+  · refine ⟨{ s with subs := s.subs.dropLast, main := t, offset := 0 }, ?_, rfl, by simp [hact.subs], rfl⟩
     simp only [Bool.false_eq_true, ↓reduceIte]
     rw [hrun']; simp [step, hact.subs]
-  · refine ⟨{ s with subs := s.subs.dropLast, main := t }, ?_, rfl, by simp [hact.subs]⟩
+  · refine ⟨{ s with subs := s.subs.dropLast, main := t, offset := 0 }, ?_, rfl, by simp [hact.subs], rfl⟩
     simp only [↓reduceIte]
     rw [hrun']; simp [step, hact.subs]
 
